@@ -345,6 +345,14 @@ func specUploader(u *uploader) bool {
 // The lock is released on every way out once it was acquired (whatever the server
 // answered, and also when it did not answer): a lock left behind would stop every
 // later run at "Failed to acquire lock" and the week would never be delivered.
+// One week, one lock, one marker, one endpoint: the lock file, the uploaded marker
+// that is re-checked and later written, and the URL posted to are all named by the
+// same date (the last ten characters of the report's name), so two reports of one
+// week can never both be sent.
+//@   at call OpenFile#1: assert arg0 == filepath.Join(u.dir.UploadDir(), fdate+".json") + ".lock"
+//@   at call Stat#1: assert arg0 == filepath.Join(u.dir.UploadDir(), fdate+".json")
+//@   at call Post#1: assert arg0 == u.uploadServerURL + "/" + fdate
+//@   at call WriteFile#1: assert arg0 == filepath.Join(u.dir.UploadDir(), fdate+".json")
 //@   at call Base#1: ghost $lockLeft = false
 //@   at call OpenFile#1: after ghost $lockLeft = result1 == nil
 //@   at call Remove#1: assert arg0 == newname + ".lock"
